@@ -81,7 +81,17 @@ func c19Check(r *Run, pool *Pool, p c19Project, src string, opts api.BuildOption
 		r.Violation("metafile:"+kind, msg+" ("+what+"; "+p.Desc+")", m)
 	}
 	var mf metafile
-	if err := json.Unmarshal([]byte(res.Metafile), &mf); err != nil {
+	metaText := res.Metafile
+	if opts.AbsPaths&api.MetafileAbsPath != 0 {
+		// with absolute metafile paths every path must be absolute; compare after making them relative to the project
+		if strings.Contains(metaText, "\"out/") || strings.Contains(metaText, "\"entry.mjs\"") {
+			viol("relative-path-with-abs-metafile", "AbsPaths=metafile but the metafile still contains a relative project path", nil)
+		}
+		metaText = strings.ReplaceAll(metaText, filepath.ToSlash(src)+"/", "")
+	} else if strings.Contains(metaText, filepath.ToSlash(src)+"/") {
+		viol("absolute-path-in-metafile", "the metafile contains an absolute project path although AbsPaths does not ask for it", nil)
+	}
+	if err := json.Unmarshal([]byte(metaText), &mf); err != nil {
 		viol("unparseable", "metafile is not valid JSON: "+err.Error(), nil)
 		return
 	}
@@ -152,12 +162,22 @@ func c19Check(r *Run, pool *Pool, p c19Project, src string, opts api.BuildOption
 			continue // <runtime>, <stdin>, <define:…>
 		}
 		checked++
-		if !reach[k] {
+		if !reach[k] && !strings.Contains(k, "node_modules/") {
 			viol("input-not-reachable", "metafile lists input "+k+" which no entry point reaches", nil)
 			continue
 		}
 		if in.Bytes != len(p.Files["/"+k]) {
 			viol("input-bytes", fmt.Sprintf("metafile says input %s has %d bytes, the file has %d", k, in.Bytes, len(p.Files["/"+k])), nil)
+		}
+		for _, im := range in.Imports {
+			if !im.External {
+				if _, ok := mf.Inputs[im.Path]; !ok {
+					viol("input-import-not-an-input", fmt.Sprintf("input %s is recorded as importing %s (%s), which is not listed under inputs", k, im.Path, im.Original), nil)
+				}
+			}
+		}
+		if strings.Contains(k, "node_modules/") {
+			continue
 		}
 		want := map[string]bool{}
 		for _, im := range expectedImports[k] {
@@ -165,6 +185,9 @@ func c19Check(r *Run, pool *Pool, p c19Project, src string, opts api.BuildOption
 		}
 		got := map[string]bool{}
 		for _, im := range in.Imports {
+			if strings.Contains(im.Path, "node_modules/") {
+				continue // package imports are resolved by esbuild's resolver; checked through execution below
+			}
 			got[im.Kind+" "+im.Path+" "+fmt.Sprint(im.External)] = true
 		}
 		for w := range want {
@@ -294,7 +317,11 @@ func c19Check(r *Run, pool *Pool, p c19Project, src string, opts api.BuildOption
 		}
 		// byte attribution measured from the `// path` markers of unminified output
 		if !opts.MinifyWhitespace && !opts.MinifySyntax {
-			spans := measureSpans(string(code), mf.Inputs)
+			codeText := string(code)
+			if opts.AbsPaths&api.CodeAbsPath != 0 {
+				codeText = strings.ReplaceAll(codeText, "// "+filepath.ToSlash(src)+"/", "// ")
+			}
+			spans := measureSpans(codeText, mf.Inputs)
 			for in, a := range o.Inputs {
 				if strings.HasPrefix(in, "<") {
 					continue
@@ -428,19 +455,24 @@ func checkC19(r *Run) {
 			}
 		default:
 			files := map[string]string{
-				"/entry.mjs":         "import {a} from \"./lib.mjs\";\nimport \"./style.css\";\nimport img from \"./pic.png\";\nimport txt from \"./note.txt\";\nimport ext from \"ext-pkg\";\nimport {unusedThing} from \"./pure/index.mjs\";\nexport const out = [a, img, txt, ext];\n/*! legal: entry */\nconst lazy = () => import(\"./lazy.mjs\");\nexport {lazy};\n",
-				"/lib.mjs":           "export const a = 1;\nexport const b = 2;\n//! legal: lib\n",
-				"/lazy.mjs":          "import \"./lazy.css\";\nexport default \"lazy\";\n",
-				"/style.css":         "@import \"./base.css\";\nbody { background: url(\"./pic.png\"); color: red; }\n/*! legal: css */\n",
-				"/base.css":          "html { margin: 0; }\n",
-				"/lazy.css":          ".lazy { color: blue; }\n",
-				"/pic.png":           "\x89PNG\r\n\x1a\n" + strings.Repeat("x", rng.Intn(200)),
-				"/note.txt":          "note " + fmt.Sprint(i),
-				"/pure/index.mjs":    "export const unusedThing = 1;\nexport const other = 2;\n",
-				"/pure/package.json": `{"sideEffects": false}`,
+				"/entry.mjs":                      "import dualDefault from \"dual\";\nimport {viaRequire} from \"./req.cjs\";\nimport {a} from \"./lib.mjs\";\nimport \"./style.css\";\nimport img from \"./pic.png\";\nimport txt from \"./note.txt\";\nimport ext from \"ext-pkg\";\nimport {unusedThing} from \"./pure/index.mjs\";\nexport const out = [a, img, txt, ext, dualDefault, viaRequire];\n/*! legal: entry */\nconst lazy = () => import(\"./lazy.mjs\");\nexport {lazy};\n",
+				"/lib.mjs":                        "export const a = 1;\nexport const b = 2;\n//! legal: lib\n",
+				"/lazy.mjs":                       "import \"./lazy.css\";\nexport default \"lazy\";\n",
+				"/style.css":                      "@import \"./base.css\";\nbody { background: url(\"./pic.png\"); color: red; }\n/*! legal: css */\n",
+				"/base.css":                       "html { margin: 0; }\n",
+				"/lazy.css":                       ".lazy { color: blue; }\n",
+				"/pic.png":                        "\x89PNG\r\n\x1a\n" + strings.Repeat("x", rng.Intn(200)),
+				"/note.txt":                       "note " + fmt.Sprint(i),
+				"/pure/index.mjs":                 "export const unusedThing = 1;\nexport const other = 2;\n",
+				"/pure/package.json":              `{"sideEffects": false}`,
+				"/req.cjs":                        "exports.viaRequire = require(\"dual\");\n",
+				"/node_modules/dual/package.json": `{"name": "dual", "main": "./index.cjs.js", "module": "./index.esm.js"}`,
+				"/node_modules/dual/index.cjs.js": "module.exports = \"cjs build\";\n",
+				"/node_modules/dual/index.esm.js": "export default \"esm build\";\n",
 			}
 			p = c19Project{Files: files, Entries: []string{"/entry.mjs"}, Desc: "assets+css+externals", External: []string{"ext-pkg"}}
 			opts.Format = api.FormatESModule
+			opts.Platform = api.PlatformDefault // browser main fields (module before main), so the dual-package redirection is exercised
 			opts.External = []string{"ext-pkg"}
 			opts.Loader = map[string]api.Loader{".png": []api.Loader{api.LoaderFile, api.LoaderDataURL, api.LoaderCopy}[rng.Intn(3)], ".txt": api.LoaderText}
 			opts.Splitting = rng.Bool()
@@ -461,7 +493,8 @@ func checkC19(r *Run) {
 		if rng.Intn(4) == 0 {
 			opts.PublicPath = "https://cdn.example/p/"
 		}
-		what := fmt.Sprintf("format=%s,splitting=%v,minify=%v,sourcemap=%d,chunk-names=%q,entry-names=%q,legal=%d,public-path=%q", formatName(opts.Format), opts.Splitting, minify, opts.Sourcemap, opts.ChunkNames, opts.EntryNames, opts.LegalComments, opts.PublicPath)
+		opts.AbsPaths = []api.AbsPaths{0, 0, api.CodeAbsPath, api.MetafileAbsPath, api.CodeAbsPath | api.MetafileAbsPath, api.LogAbsPath}[rng.Intn(6)]
+		what := fmt.Sprintf("format=%s,splitting=%v,minify=%v,sourcemap=%d,chunk-names=%q,entry-names=%q,legal=%d,public-path=%q,abs-paths=%d", formatName(opts.Format), opts.Splitting, minify, opts.Sourcemap, opts.ChunkNames, opts.EntryNames, opts.LegalComments, opts.PublicPath, opts.AbsPaths)
 		res, pan := buildSafe(opts)
 		if pan != "" || len(res.Errors) > 0 {
 			if len(res.Errors) > 0 && !strings.Contains(res.Errors[0].Text, "Top-level await") {
